@@ -169,6 +169,8 @@ fn utf8_junk(r: &mut Rng, n_bytes: usize) -> String {
 
 const SHORT_NAMES: &[&str] = &[
     "a", "k", "Z", "0", "ключ", "秘密", "🔑", "a b", "é", "x.y", "p:q", "näme", "K", "aa", "_", "-", "한글", "م", "tab\tname", "q\"uote",
+    // characters that mean something to globs, patterns, paths and formats
+    "*", "a*b", "?", "[a]", "%s", "{x}", "..", "\\", "a|b", "$HOME", "*ключ*",
 ];
 const SHORT_NS: &[&str] = &["n", "пр", "空", "s p", "N"];
 
@@ -275,7 +277,15 @@ impl Names {
             let nss: Vec<String> = (0..n_ns).map(|_| alnum(&mut r, 24)).collect();
             for i in 0..n_secrets {
                 let ns = nss[i % n_ns].clone();
-                secrets.push(format!("{ns}/{}", alnum(&mut r, 24)));
+                // every third name carries a character that means something to globs,
+                // patterns and formats (still a unique 24-character needle)
+                let leaf = if i % 3 == 2 {
+                    let m = ['*', '?', '%', '[', '$', '|'][r.usize_below(6)];
+                    format!("{}{m}{}", alnum(&mut r, 12), alnum(&mut r, 11))
+                } else {
+                    alnum(&mut r, 24)
+                };
+                secrets.push(format!("{ns}/{leaf}"));
                 sec_ns.push(ns);
             }
         } else {
@@ -323,7 +333,7 @@ impl Names {
 }
 
 fn utf8_name(r: &mut Rng, n_bytes: usize) -> String {
-    const POOL: &[char] = &['a', 'Ω', 'я', '中', '🔑', 'é', ' ', '.', '-', '한'];
+    const POOL: &[char] = &['a', 'Ω', 'я', '中', '🔑', 'é', ' ', '.', '-', '한', '*', '?', '%'];
     let mut s = String::new();
     while s.len() < n_bytes {
         s.push(POOL[r.usize_below(POOL.len())]);
@@ -547,10 +557,11 @@ fn value_needles(v: &str) -> Vec<(String, &'static str)> {
 }
 
 fn is_name_byte(b: u8) -> bool {
-    b.is_ascii_alphanumeric() || b == b'/'
+    b.is_ascii_alphanumeric() || matches!(b, b'/' | b'*' | b'?' | b'%' | b'[' | b'$' | b'|')
 }
 
-/// All needles are >= 24 bytes of [A-Za-z0-9/]; find maximal runs of such bytes
+/// All needles are >= 24 bytes of [A-Za-z0-9/] plus the pattern characters the name
+/// generator uses; find maximal runs of such bytes
 /// in the image and look for needles only inside runs long enough.
 fn scan_image<'a>(img: &[u8], needles: &'a [(String, &'static str)]) -> Option<&'a (String, &'static str)> {
     let mut i = 0;
@@ -1952,6 +1963,11 @@ fn run_case(case: &Case, ctx: &Arc<RunCtx>) -> RunOut {
     if case.cfg.name_mode == 0 {
         for n in &names.secrets {
             name_needles.push((n.clone(), "name"));
+            // the part after the namespace is the name proper (24 random characters):
+            // a record that holds it without the prefix holds the name as well
+            if let Some(i) = n.find('/') {
+                name_needles.push((n[i + 1..].to_string(), "name"));
+            }
         }
         let mut seen = BTreeSet::new();
         for ns in &names.sec_ns {
